@@ -112,6 +112,14 @@ def run(ctx):
             if not ok and isinstance(e, ast.Call) and isinstance(e.func, ast.Name) and e.func.id == "len" and e.args and isinstance(e.args[0], ast.Call) and isinstance(e.args[0].func, ast.Name) and e.args[0].func.id in ("list", "tuple"):
                 ok = bool(e.args[0].args) and incident_of_node(e.args[0].args[0])
             # anything else built from len() / the incidence queries is a different quantity; other shapes are not judged
+            # sum(1 for _ in <incident edges of node>) is the same count
+            if not ok and isinstance(e, ast.Call) and isinstance(e.func, ast.Name) and e.func.id == "sum" and len(e.args) == 1 and isinstance(e.args[0], ast.GeneratorExp) and isinstance(e.args[0].elt, ast.Constant) and e.args[0].elt.value == 1 and len(e.args[0].generators) == 1 and not e.args[0].generators[0].ifs:
+                src = e.args[0].generators[0].iter
+                if incident_of_node(src):
+                    ok = True
+                elif isinstance(src, ast.Call) and ctx.callees(v.fi, getattr(src, "_orig", src)):
+                    res.unknown("D-LEN", v.fi.short, norm(r), "len(incident)", "the degree counts what a helper yields", loc(v.fi, r))
+                    continue
             related = any(isinstance(x, ast.Call) and ((isinstance(x.func, ast.Name) and x.func.id in ("len", "sum")) or (isinstance(x.func, ast.Attribute) and x.func.attr in ("get_incident_edges", "get_neighbors", "get_edges"))) for x in ast.walk(e))
             res.add("D-LEN", v.fi.short, norm(r), "len(incident)", "ok" if ok else ("violation" if related else "unknown"), "" if ok else "degree is not the length of the node's (filtered) incident-hyperedge list", loc(v.fi, r))
     # ---- degree_sequence: {node: hg.degree(node, ...) for node in hg.get_nodes()}
